@@ -536,6 +536,16 @@ struct VedChoice {
     carried: G1Projective,
     /// generator used for the message term of c2 / r2 and of the byte ciphertexts
     used: G1Projective,
+    /// value whose 32 bytes the byte part decomposes (normally `enc`)
+    byte_val: Scalar,
+    /// factor applied to every byte inside the byte ciphertexts and their Schnorr proofs (normally 1)
+    byte_scale: Scalar,
+    /// value generator of the byte range proof (normally the statement's generator)
+    bp_gen: Option<G1Projective>,
+}
+
+fn vc(enc: Scalar, text_of: ClaimData, carried: G1Projective, used: G1Projective) -> VedChoice {
+    VedChoice { enc, text_of, carried, used, byte_val: enc, byte_scale: Scalar::ONE, bp_gen: None }
 }
 
 /// A hand-written holder for (one signature statement + one encrypt-and-decrypt statement): commit – challenge –
@@ -589,7 +599,7 @@ fn hand_ved<S: ShortGroupSignatureScheme>(scn: &Scn<S>, rng: &mut Rng, choose: i
     t.append_message(b"c2", c2.to_compressed().as_slice());
     t.append_message(b"r1", r1.to_compressed().as_slice());
     t.append_message(b"r2", r2.to_compressed().as_slice());
-    let bytes = ch.enc.to_be_bytes();
+    let bytes = ch.byte_val.to_be_bytes();
     let shift = Scalar::from(256u64);
     let mut bi = [Scalar::ZERO; 32];
     let mut bbi = [Scalar::ZERO; 32];
@@ -607,7 +617,7 @@ fn hand_ved<S: ShortGroupSignatureScheme>(scn: &Scn<S>, rng: &mut Rng, choose: i
         bbi[i] = rng.scalar();
         nbi[i] = rng.scalar();
         ct.c1[i] = g * bi[i];
-        ct.c2[i] = smg * Scalar::from(bytes[i] as u64) + k * bi[i];
+        ct.c2[i] = smg * (ch.byte_scale * Scalar::from(bytes[i] as u64)) + k * bi[i];
         t.append_u64(b"verifiable_encryption_decryption_message_byte_index", i as u64);
         t.append_message(b"byte_proof_c1", ct.c1[i].to_compressed().as_slice());
         t.append_message(b"byte_proof_c2", ct.c2[i].to_compressed().as_slice());
@@ -632,12 +642,12 @@ fn hand_ved<S: ShortGroupSignatureScheme>(scn: &Scn<S>, rng: &mut Rng, choose: i
     let sig_proof = pok.generate_proof(c).ok()?;
     let mut byte_proofs = [ByteProof::default(); 32];
     for i in 0..32 {
-        byte_proofs[i] = ByteProof { message: nbi[i] + c * Scalar::from(bytes[i] as u64), blinder: bbi[i] + c * bi[i] };
+        byte_proofs[i] = ByteProof { message: nbi[i] + c * ch.byte_scale * Scalar::from(bytes[i] as u64), blinder: bbi[i] + c * bi[i] };
     }
     let mut rt = merlin::Transcript::new(b"PresentationEncryptionDecryption byte range proof");
     rt.append_message(b"challenge", &c.to_be_bytes());
     let values: Vec<u64> = bytes.iter().map(|x| *x as u64).collect();
-    let (range_proof, _) = bulletproofs::RangeProof::prove_multiple(&bulletproofs::BulletproofGens::new(8, 32), &bulletproofs::PedersenGens { B: smg, B_blinding: k }, &mut rt, &values, &bi, 8).ok()?;
+    let (range_proof, _) = bulletproofs::RangeProof::prove_multiple(&bulletproofs::BulletproofGens::new(8, 32), &bulletproofs::PedersenGens { B: ch.bp_gen.unwrap_or(smg), B_blinding: k }, &mut rt, &values, &bi, 8).ok()?;
     let mut proofs: IndexMap<String, PresentationProofs<S>> = IndexMap::new();
     proofs.insert(sid.clone(), SignatureProof::<S> { id: sid.clone(), disclosed_messages: inner, pok: sig_proof }.into());
     proofs.insert(
@@ -652,7 +662,7 @@ fn hand_ved<S: ShortGroupSignatureScheme>(scn: &Scn<S>, rng: &mut Rng, choose: i
 /// deviating encrypt-and-decrypt holders (hand-written prover): another text in the symmetric part, another scalar in
 /// the ciphertext, the generator carried in the proof rescaled so that the substituted claim matches, the identity as
 /// carried / used generator with zero encrypted. Oracle: accepted ⇒ decrypt_and_verify returns the signed claim.
-fn ved_deviations<S: ShortGroupSignatureScheme + 'static>(em: &mut Emitter, rng: &mut Rng, suite: &str) {
+pub fn ved_deviations<S: ShortGroupSignatureScheme + 'static>(em: &mut Emitter, rng: &mut Rng, suite: &str, tag: &str) {
     for ci in if em.thorough() { vec![1usize, 2, 3] } else { vec![1usize + (em.seed % 3) as usize] } {
         let mix = Mix { n_creds: 1, n_claims: 5, age: rng.range(1, 90), disclosed: vec![vec!["city".to_string()]], ved: Some(ci), ..Default::default() };
         let scn = Scn::<S>::build(rng, &mix);
@@ -663,21 +673,27 @@ fn ved_deviations<S: ShortGroupSignatureScheme + 'static>(em: &mut Emitter, rng:
             ClaimData::Number(n) => NumberClaim::from(n.value + 1).into(),
             _ => ScalarClaim::from(rng.scalar()).into(),
         };
-        let (o1, o2, o3, o4, o5, o6, o7) = (other.clone(), other.clone(), other.clone(), other.clone(), other.clone(), other.clone(), other.clone());
+        let (o1, o2, o3, o4, o5, o6, o7, o8) = (other.clone(), other.clone(), other.clone(), other.clone(), other.clone(), other.clone(), other.clone(), other.clone());
         let ident = G1Projective::IDENTITY;
         type Ch = Box<dyn Fn(&VerifiableEncryptionDecryptionStatement<G1Projective>, &ClaimData, Scalar) -> VedChoice>;
         let cases: Vec<(&str, Ch)> = vec![
-            ("honest", Box::new(|st, cl, m| VedChoice { enc: m, text_of: cl.clone(), carried: st.message_generator, used: st.message_generator })),
-            ("other-text", Box::new(move |st, _, m| VedChoice { enc: m, text_of: o1.clone(), carried: st.message_generator, used: st.message_generator })),
-            ("other-scalar-and-text", Box::new(move |st, _, _| VedChoice { enc: o2.to_scalar(), text_of: o2.clone(), carried: st.message_generator, used: st.message_generator })),
+            ("honest", Box::new(|st, cl, m| vc(m, cl.clone(), st.message_generator, st.message_generator))),
+            ("other-text", Box::new(move |st, _, m| vc(m, o1.clone(), st.message_generator, st.message_generator))),
+            ("other-scalar-and-text", Box::new(move |st, _, _| vc(o2.to_scalar(), o2.clone(), st.message_generator, st.message_generator))),
             ("carried-generator-rescaled-to-other-text", Box::new(move |st, _, m| {
                 let ratio = m * Option::<Scalar>::from(o3.to_scalar().invert()).unwrap_or(Scalar::ONE);
-                VedChoice { enc: m, text_of: o3.clone(), carried: st.message_generator * ratio, used: st.message_generator }
+                vc(m, o3.clone(), st.message_generator * ratio, st.message_generator)
             })),
-            ("identity-carried-zero-encrypted-other-text", Box::new(move |st, _, _| VedChoice { enc: Scalar::ZERO, text_of: o4.clone(), carried: ident, used: st.message_generator })),
-            ("identity-used-and-carried-other-text", Box::new(move |_, _, m| VedChoice { enc: m, text_of: o5.clone(), carried: ident, used: ident })),
-            ("identity-used-and-carried-zero-encrypted-other-text", Box::new(move |_, _, _| VedChoice { enc: Scalar::ZERO, text_of: o6.clone(), carried: ident, used: ident })),
-            ("identity-used-zero-encrypted-other-text", Box::new(move |st, _, _| VedChoice { enc: Scalar::ZERO, text_of: o7.clone(), carried: st.message_generator, used: ident })),
+            ("byte-part-on-substitute-under-rescaled-generator", Box::new(move |st, _, m| {
+                let mo = o8.to_scalar();
+                let ratio = m * Option::<Scalar>::from(mo.invert()).unwrap_or(Scalar::ONE);
+                let gp = st.message_generator * ratio;
+                VedChoice { enc: m, text_of: o8.clone(), carried: gp, used: st.message_generator, byte_val: mo, byte_scale: ratio, bp_gen: Some(gp) }
+            })),
+            ("identity-carried-zero-encrypted-other-text", Box::new(move |st, _, _| vc(Scalar::ZERO, o4.clone(), ident, st.message_generator))),
+            ("identity-used-and-carried-other-text", Box::new(move |_, _, m| vc(m, o5.clone(), ident, ident))),
+            ("identity-used-and-carried-zero-encrypted-other-text", Box::new(move |_, _, _| vc(Scalar::ZERO, o6.clone(), ident, ident))),
+            ("identity-used-zero-encrypted-other-text", Box::new(move |st, _, _| vc(Scalar::ZERO, o7.clone(), st.message_generator, ident))),
         ];
         for (name, ch) in cases {
             em.oracle_case(&format!("{} hand-ved {} claim {}", suite, name, ci));
@@ -693,7 +709,7 @@ fn ved_deviations<S: ShortGroupSignatureScheme + 'static>(em: &mut Emitter, rng:
             let replay = scn.replay(json!({"suite": suite, "deviation": name, "claim_index": ci, "presentation": serde_json::to_value(&q).unwrap_or_default()}));
             if name == "honest" {
                 if !acc {
-                    em.violation("c10:harness-hand-ved-broken", format!("{}: the hand-written encrypt-and-decrypt holder is rejected when it follows the protocol (harness self-check)", suite), replay);
+                    em.violation(&format!("{}:harness-hand-ved-broken", tag), format!("{}: the hand-written encrypt-and-decrypt holder is rejected when it follows the protocol (harness self-check)", suite), replay);
                     break;
                 }
                 continue;
@@ -706,11 +722,11 @@ fn ved_deviations<S: ShortGroupSignatureScheme + 'static>(em: &mut Emitter, rng:
                     // group decryption of an accepted proof is the signed claim's encoding under the statement's generator
                     let stg = scn.schema.statements.values().find_map(|s| if let Statements::VerifiableEncryptionDecryption(x) = s { Some(x.message_generator) } else { None }).unwrap();
                     if v.c2 - v.c1 * sk.0 != stg * signed.to_scalar() {
-                        em.violation(&format!("c10:ved-group-decryption-differs:{}", name), format!("{}: accepted encrypt-and-decrypt proof does not decrypt to the signed claim's group encoding (deviation {})", suite, name), replay.clone());
+                        em.violation(&format!("{}:ved-group-decryption-differs:{}", tag, name), format!("{}: accepted encrypt-and-decrypt proof does not decrypt to the signed claim's group encoding (deviation {})", suite, name), replay.clone());
                     }
                     match call(|| v.decrypt_and_verify(&sk)) {
                         Out::Ok(c) if crate::claims::claim_str(&c) == crate::claims::claim_str(&signed) => em.count("hand-ved:accepted-decrypts-to-signed"),
-                        Out::Ok(c) => em.violation(&format!("c10:ved-decrypts-to-unsigned-claim:{}", name), format!("{}: accepted encrypt-and-decrypt proof decrypts to {} although {} was signed (deviation {})", suite, crate::claims::claim_str(&c), crate::claims::claim_str(&signed), name), replay.clone()),
+                        Out::Ok(c) => em.violation(&format!("{}:ved-decrypts-to-unsigned-claim:{}", tag, name), format!("{}: accepted encrypt-and-decrypt proof decrypts to {} although {} was signed (deviation {})", suite, crate::claims::claim_str(&c), crate::claims::claim_str(&signed), name), replay.clone()),
                         // the text of the symmetric part cannot be checked without the key: a proof whose text does not fit
                         // is accepted and then refused by decrypt_and_verify — no claim is returned (counted, not judged)
                         Out::Err => em.count(&format!("hand-ved:{}:accepted-no-claim-returned", name)),
@@ -836,12 +852,12 @@ pub fn gen_c10(em: &mut Emitter, rng: &mut Rng) {
     }
     if em.mine(base + 2) {
         domain_pseudonyms::<Bbs>(em, &mut rng.sub(7003), "bbs");
-        ved_deviations::<Ps>(em, &mut rng.sub(7006), "ps");
+        ved_deviations::<Ps>(em, &mut rng.sub(7006), "ps", "c10");
         ved_text_values::<Bbs>(em, &mut rng.sub(7007), "bbs");
     }
     if em.mine(base + 3) {
         domain_pseudonyms::<Ps>(em, &mut rng.sub(7004), "ps");
-        ved_deviations::<Bbs>(em, &mut rng.sub(7005), "bbs");
+        ved_deviations::<Bbs>(em, &mut rng.sub(7005), "bbs", "c10");
         ved_text_values::<Ps>(em, &mut rng.sub(7008), "ps");
     }
 }
